@@ -10,6 +10,7 @@ import (
 	"time"
 
 	"github.com/btcsuite/btcd/btcec/v2"
+	"github.com/lightningnetwork/lnd/keychain"
 	"simrt"
 )
 
@@ -20,7 +21,7 @@ func init() {
 		Doc: "XX handshake where the initiator's passphrase differs from the responder's in exactly one bit - each of the 112 bit positions",
 	})
 	simrt.Register(&simrt.Scenario{
-		Prop: "C03", Name: "kk-mismatch", Enumerated: true, Count: fixed(4 * 3),
+		Prop: "C03", Name: "kk-mismatch", Enumerated: true, Count: fixed(len(c03Shapes) * 3),
 		Run: c03KK, MaxOps: 1 << 20, Horizon: time.Hour,
 		Doc: "KK handshake with each key-mismatch shape (initiator stored a wrong responder key / responder stored a wrong initiator key / both / initiator presents another static key) x auth payload sizes",
 	})
@@ -121,15 +122,30 @@ func c03KKSpec(pr *prng, shape int, auth []byte) hsSpec {
 		sp.cliRemote, sp.srvRemote = wrong(), wrong()
 	case 3: // initiator presents another static key than the one stored at pairing
 		sp.cliKey = pr.ecdh()
+	case 4: // impersonation: the paired public key, but somebody else's private key
+		sp.cliKey = &forgedECDH{pub: ck.PubKey(), priv: pr.ecdh()}
+	case 5: // the responder is the impersonator
+		sp.srvKey = &forgedECDH{pub: sk.PubKey(), priv: pr.ecdh()}
 	}
 	return sp
 }
 
-var c03Shapes = []string{"initiator-has-wrong-responder-key", "responder-has-wrong-initiator-key", "both-wrong", "initiator-presents-other-key"}
+var c03Shapes = []string{"initiator-has-wrong-responder-key", "responder-has-wrong-initiator-key", "both-wrong", "initiator-presents-other-key", "initiator-impersonates-paired-key", "responder-impersonates-paired-key"}
+
+// forgedECDH claims one public key and computes its Diffie-Hellman results
+// with an unrelated private key: a party that knows the paired public keys
+// but not the private one.
+type forgedECDH struct {
+	pub  *btcec.PublicKey
+	priv keychain.SingleKeyECDH
+}
+
+func (f *forgedECDH) PubKey() *btcec.PublicKey { return f.pub }
+func (f *forgedECDH) ECDH(p *btcec.PublicKey) ([32]byte, error) { return f.priv.ECDH(p) }
 
 func c03KK(rc *simrt.RunCtx) {
-	shape := rc.Idx() % 4
-	size := []int{0, 64, 4096}[(rc.Idx()/4)%3]
+	shape := rc.Idx() % len(c03Shapes)
+	size := []int{0, 64, 4096}[(rc.Idx()/len(c03Shapes))%3]
 	pr := newPrng(rc.Seed())
 	installEphemeralGen(pr)
 	auth := marker(rc.Seed(), size)
@@ -163,28 +179,42 @@ func c03Random(rc *simrt.RunCtx) {
 			sp = c03KKSpec(pr, -1, auth)
 			what = "KK matching keys"
 		} else {
-			shape := rc.Pick(4, "knob.shape")
+			shape := rc.Pick(len(c03Shapes), "knob.shape")
 			sp = c03KKSpec(pr, shape, auth)
 			what = "KK " + c03Shapes[shape]
 		}
 		sp.cMin, sp.sMin = byte(rc.Pick(3, "knob.cmin")), byte(rc.Pick(3, "knob.smin"))
 	} else {
-		pass := pr.bytes(14)
+		plen := []int{14, 14, 14, 16, 32, 5}[rc.Pick(6, "knob.passlen")]
+		pass := pr.bytes(plen)
 		sp = hsSpec{cliPass: pass, srvPass: pass, cliKey: pr.ecdh(), srvKey: pr.ecdh(), auth: auth}
 		if !match {
-			o := pr.bytes(14)
-			if rc.Pick(2, "knob.fewbits") == 1 {
+			o := pr.bytes(plen)
+			switch rc.Pick(5, "knob.difference") {
+			case 1: // a few flipped bits anywhere
 				o = append([]byte(nil), pass...)
 				for k := 0; k < 1+rc.Pick(3, "knob.nbits"); k++ {
-					b := rc.Pick(112, "knob.bit")
+					b := rc.Pick(plen*8, "knob.bit")
 					o[b/8] ^= 1 << (b % 8)
 				}
+			case 2: // only the very last bit differs
+				o = append([]byte(nil), pass...)
+				o[plen-1] ^= 1
+			case 3: // one is a proper prefix of the other
+				if plen > 2 {
+					o = append([]byte(nil), pass[:plen-1-rc.Pick(plen-2, "knob.cut")]...)
+				}
+			case 4: // same bytes followed by zeros
+				o = append(append([]byte(nil), pass...), make([]byte, 1+rc.Pick(4, "knob.zeros"))...)
 			}
 			if eqBytes(o, pass) {
 				o[0] ^= 1
 			}
 			sp.cliPass = o
-			what = "XX different passphrases"
+			if rc.Pick(2, "knob.swap") == 1 {
+				sp.cliPass, sp.srvPass = sp.srvPass, sp.cliPass
+			}
+			what = fmt.Sprintf("XX different passphrases (%d vs %d bytes)", len(sp.cliPass), len(sp.srvPass))
 		} else {
 			what = "XX same passphrase"
 		}
